@@ -237,7 +237,7 @@ Register f5("fault.option", [](const Tokens& t) -> std::string {
 
 // fault.preset <mp|json|xml|csv> <fail|eof|unopened>: the output stream is ALREADY in a failed state (failbit without badbit: a file that
 // could not be opened, a stream left at eof/fail by earlier use): nothing can be written, the save must report it
-Register f6("fault.preset", [](const Tokens& t) -> std::string {
+Register f7("fault.preset", [](const Tokens& t) -> std::string {
 	if (t.size() != 3) throw BadOp("arity");
 	auto run = [&](std::ostream& os) -> std::string {
 		if (t[1] == "mp") return guarded([&] { auto o = sampleOuter(); SaveObject<MsgPack::MsgPackArchive>(o, os); });
